@@ -366,6 +366,8 @@ q_number::q_number(const std::string &s, unsigned base) {
   if (res != 0) {
     CRAB_ERROR("q_number: invalid string in constructor", s);
   }
+  // all mpq functions assume canonical operands
+  mpq_canonicalize(_n);
 }
 
 q_number::q_number(const z_number &z) {
@@ -376,6 +378,8 @@ q_number::q_number(const z_number &z) {
 q_number::q_number(const z_number &num, const z_number &den) {
   mpz_init_set(mpq_numref(_n), num._n);
   mpz_init_set(mpq_denref(_n), den._n);
+  // all mpq functions assume canonical operands
+  mpq_canonicalize(_n);
 }
 
 q_number q_number::from_mpq_t(mpq_t mp) {
